@@ -109,3 +109,76 @@ Definition to_listing_file (cm : code_map) (sm : source_map) (segs : segments) (
 (* to_listing: for file in code_map.files() *)
 Definition to_listing (cm : code_map) (sm : source_map) (segs : segments) (n : nat) : res (list (N * list row)) :=
   mapM (fun f => bind (to_listing_file cm sm segs n f) (fun rows => Ok (f_name f, rows))) cm.
+
+(* ------------------------------------------------------------------ the text of a listing (bytes, UTF-8)
+   format!("{:>5}", line_idx + 1), format!("{:5}", ""), format!("{:width$}", .., width = n * 3), format!("{:04X}:", pc),
+   format!("{:02X}", b) joined by " ", line.join(" "), trim_end() of a row with bytes, rows joined by LINE_ENDING ("\n"),
+   trim_end() of the whole text.  File::source_line: the line without its trailing '\n' / '\r' characters. *)
+Local Open Scope N_scope.
+Definition sp : N := 32.
+Fixpoint digits_fuel (fuel : nat) (base : N) (x : N) (acc : list N) : list N :=
+  match fuel with
+  | O => acc
+  | S f => let d := N.modulo x base in
+           let c := if d <? 10 then 48 + d else 55 + d in      (* '0'.. / 'A'.. *)
+           if x / base =? 0 then c :: acc else digits_fuel f base (x / base) (c :: acc)
+  end.
+Definition digits (base x : N) : list N := digits_fuel (S (N.size_nat x)) base x [].
+Definition pad_left (c : N) (w : nat) (s : list N) : list N := repeat c (w - length s)%nat ++ s.
+Definition pad_right (c : N) (w : nat) (s : list N) : list N := s ++ repeat c (w - length s)%nat.
+Fixpoint join (sep : list N) (parts : list (list N)) : list N :=
+  match parts with
+  | [] => []
+  | [p] => p
+  | p :: r => p ++ sep ++ join sep r
+  end.
+
+(* char::is_whitespace (Unicode White_Space) on UTF-8, read backwards: trim_end on the reversed byte string *)
+Definition ws1 (b : N) : bool := ((9 <=? b) && (b <=? 13)) || (b =? 32).
+Fixpoint trim_start_rev (r : list N) : list N :=
+  match r with
+  | b :: r1 =>
+      if ws1 b then trim_start_rev r1
+      else match r1 with
+           | b1 :: r2 =>
+               if (b1 =? 194) && ((b =? 133) || (b =? 160)) then trim_start_rev r2           (* U+0085, U+00A0 *)
+               else match r2 with
+                    | b2 :: r3 =>
+                        if ((b2 =? 225) && (b1 =? 154) && (b =? 128))                         (* U+1680 *)
+                           || ((b2 =? 226) && (b1 =? 128) && (((128 <=? b) && (b <=? 138)) || (b =? 168) || (b =? 169) || (b =? 175)))
+                                                                                             (* U+2000..200A, 2028, 2029, 202F *)
+                           || ((b2 =? 226) && (b1 =? 129) && (b =? 159))                     (* U+205F *)
+                           || ((b2 =? 227) && (b1 =? 128) && (b =? 128))                     (* U+3000 *)
+                        then trim_start_rev r3 else r
+                    | [] => r
+                    end
+           | [] => r
+           end
+  | [] => []
+  end.
+Definition trim_end (s : list N) : list N := rev (trim_start_rev (rev s)).
+
+Fixpoint drop_eol_rev (r : list N) : list N :=
+  match r with b :: r1 => if (b =? 10) || (b =? 13) then drop_eol_rev r1 else r | [] => [] end.
+(* File::source_line *)
+Definition source_line (f : file) (line : nat) : list N :=
+  let lo := Z.to_nat (nth line (lines f) 0%Z) in
+  let hi := match nth_error (lines f) (S line) with Some h => Z.to_nat h | None => length (f_src f) end in
+  rev (drop_eol_rev (rev (firstn (hi - lo)%nat (skipn lo (f_src f))))).
+
+Definition render_row (n : nat) (f : file) (r : row) : list N :=
+  let num := pad_left sp 5%nat (digits 10 (N.of_nat (S (r_line r)))) in
+  match r_addr r with
+  | None => join [sp] [num; repeat sp 5%nat; repeat sp (n * 3)%nat; source_line f (r_line r)]
+  | Some pc =>
+      let bytes := pad_right sp (n * 3)%nat (join [sp] (map (fun b => pad_left 48 2%nat (digits 16 b)) (r_bytes r))) in
+      let addr := pad_left 48 4%nat (digits 16 (Z.to_N pc)) ++ [58] in
+      trim_end (join [sp] ([num; addr; bytes] ++ (if r_src r then [source_line f (r_line r)] else [])))
+  end.
+
+Definition render_listing (n : nat) (f : file) (rows : list row) : list N :=
+  trim_end (join [10] (map (render_row n f) rows)).
+
+(* to_listing, as text *)
+Definition to_listing_text (cm : code_map) (sm : source_map) (segs : segments) (n : nat) : res (list (N * list N)) :=
+  mapM (fun f => bind (to_listing_file cm sm segs n f) (fun rows => Ok (f_name f, render_listing n f rows))) cm.
